@@ -34,6 +34,15 @@ fn hex(b: &[u8]) -> String {
     s
 }
 
+/// hex, abbreviated in the middle for long strings
+fn hexs(b: &[u8]) -> String {
+    if b.len() <= 100 {
+        hex(b)
+    } else {
+        format!("{}..[{} bytes]..{}", hex(&b[..8]), b.len(), hex(&b[b.len() - 40..]))
+    }
+}
+
 /// reader that counts the bytes handed out
 struct CountReader<'a> {
     data: &'a [u8],
@@ -383,7 +392,7 @@ fn small_coeffs<E: Field>(e: &E) -> [u64; 4] {
 // Field elements (E): whole universe on toy fields
 // ------------------------------------------------------------------------------------------
 /// compare a library deserialization result with the model's verdict for the same bytes
-fn judge_field<E: Field, Fl: TestFlag>(loc: &mut Loc, site: &str, name: &str, m: &Small, b: &[u8], want: &SDec, got: Result<(E, u8), String>, consumed: usize) {
+fn judge_field<E: Field, Fl: TestFlag>(loc: &mut Loc, site: &str, name: &str, m: &Small, b: &[u8], want: &SDec, got: Result<(E, u8), ark_serialize::SerializationError>, consumed: usize) {
     let total = m.total(Fl::NB);
     match (want, got) {
         (SDec::Ok(c, fm), Ok((v, f))) => {
@@ -514,7 +523,7 @@ fn field_e<E: Field, Fl: TestFlag>(ctx: &mut Ctx, name: &str) {
                 loc.sample(format!("{name}/{} bytes={} model verdict {want:?}", Fl::NAME, hex(b)));
             }
             let mut rd = CountReader::new(b);
-            let got = E::deserialize_with_flags::<_, Fl>(&mut rd).map(|(v, f)| (v, f.mask())).map_err(|e| e.to_string());
+            let got = E::deserialize_with_flags::<_, Fl>(&mut rd).map(|(v, f)| (v, f.mask()));
             // the property's own wording: Ok(v, f) must re-serialize to the input
             if let Ok((v, f)) = &got {
                 if let Some(fl) = Fl::of_mask(*f) {
@@ -532,7 +541,7 @@ fn field_e<E: Field, Fl: TestFlag>(ctx: &mut Ctx, name: &str) {
             if nb == 0 {
                 for (cm, vm) in MODES.iter() {
                     let mut rd = CountReader::new(b);
-                    let got = E::deserialize_with_mode(&mut rd, *cm, *vm).map(|v| (v, 0u8)).map_err(|e| e.to_string());
+                    let got = E::deserialize_with_mode(&mut rd, *cm, *vm).map(|v| (v, 0u8));
                     let pos = rd.pos;
                     judge_field::<E, Fl>(loc, "bytes/deserialize_with_mode", name, &m, b, &want, got, pos);
                 }
@@ -748,15 +757,15 @@ fn field_a<E: Field, Fl: TestFlag>(ctx: &mut Ctx, name: &str) {
             BDec::Short => unreachable!(),
         }
         if loc.sampling() {
-            loc.sample(format!("{name}/{} bytes={} model verdict {}", Fl::NAME, hex(b), match &want { BDec::Ok(c, f) => format!("Ok({}, flag {f:#x})", show(c)), w => format!("{w:?}") }));
+            loc.sample(format!("{name}/{} bytes={} model verdict {}", Fl::NAME, hexs(b), match &want { BDec::Ok(c, f) => format!("Ok({}, flag {f:#x})", show(c)), w => format!("{w:?}") }));
         }
         let judge = |loc: &mut Loc, site: &str, got: Result<(E, u8), String>, consumed: usize| match (&want, got) {
             (BDec::Ok(c, fm), Ok((v, f))) => {
                 loc.check_at(site, coeffs(&v) == *c && v == from_coeffs::<E>(c) && f == *fm && consumed == total, || {
-                    format!("{name}/{}: bytes {} -> {} flag {f:#x} consumed {consumed}; want {} flag {fm:#x} consumed {total}", Fl::NAME, hex(b), show(&coeffs(&v)), show(c))
+                    format!("{name}/{}: bytes {} -> {} flag {f:#x} consumed {consumed}; want {} flag {fm:#x} consumed {total}", Fl::NAME, hexs(b), show(&coeffs(&v)), show(c))
                 });
             }
-            (BDec::Ok(c, fm), Err(e)) => loc.fail_at(site, format!("{name}/{}: canonical encoding {} of {} flag {fm:#x} rejected: {e}", Fl::NAME, hex(b), show(c))),
+            (BDec::Ok(c, fm), Err(e)) => loc.fail_at(site, format!("{name}/{}: canonical encoding {} of {} flag {fm:#x} rejected: {e}", Fl::NAME, hexs(b), show(c))),
             (w, Ok((v, f))) => {
                 let mut out = Vec::new();
                 let r = match Fl::of_mask(f) {
@@ -764,7 +773,7 @@ fn field_a<E: Field, Fl: TestFlag>(ctx: &mut Ctx, name: &str) {
                     None => false,
                 };
                 let wn = match w { BDec::Stray => "stray bit above the modulus bit length", BDec::GeP => "integer >= p", BDec::BadFlags => "illegal flag pattern", _ => "?" };
-                loc.fail_at(site, format!("{name}/{}: non-canonical bytes {} ({wn}) accepted as {} flag {f:#x}; re-serializes (ok={r}) to {}", Fl::NAME, hex(b), show(&coeffs(&v)), hex(&out)));
+                loc.fail_at(site, format!("{name}/{}: non-canonical bytes {} ({wn}) accepted as {} flag {f:#x}; re-serializes (ok={r}) to {}", Fl::NAME, hexs(b), show(&coeffs(&v)), hexs(&out)));
             }
             (_, Err(_)) => loc.op(),
         };
@@ -778,7 +787,7 @@ fn field_a<E: Field, Fl: TestFlag>(ctx: &mut Ctx, name: &str) {
                 let r = v.serialize_with_flags(&mut out, fl);
                 loc.check_at("alpha/reserialize_identical", r.is_ok() && out == *b, || {
                     let wn = match &want { BDec::Stray => "stray bit above the modulus bit length", BDec::GeP => "integer >= p", BDec::BadFlags => "illegal flag pattern", _ => "canonical" };
-                    format!("{name}/{}: bytes {} (model: {wn}) deserialize to {} flag {f:#x} which re-serializes to {}", Fl::NAME, hex(b), show(&coeffs(v)), hex(&out))
+                    format!("{name}/{}: bytes {} (model: {wn}) deserialize to {} flag {f:#x} which re-serializes to {}", Fl::NAME, hexs(b), show(&coeffs(v)), hexs(&out))
                 });
             }
         }
@@ -799,13 +808,13 @@ fn field_a<E: Field, Fl: TestFlag>(ctx: &mut Ctx, name: &str) {
             let mut out = Vec::new();
             let r = e.serialize_with_flags(&mut out, fl);
             let sz = e.serialized_size_with_flags::<Fl>();
-            loc.check_at("alpha/serialize_with_flags", r.is_ok() && out == *b && sz == total, || format!("{name}/{}: {} flag {fm:#x}: size {sz}, wrote {}; model {}", Fl::NAME, show(c), hex(&out), hex(b)));
+            loc.check_at("alpha/serialize_with_flags", r.is_ok() && out == *b && sz == total, || format!("{name}/{}: {} flag {fm:#x}: size {sz}, wrote {}; model {}", Fl::NAME, show(c), hexs(&out), hexs(b)));
             if nb == 0 {
                 for cm in [Compress::Yes, Compress::No] {
                     let mut out = Vec::new();
                     let r = e.serialize_with_mode(&mut out, cm);
                     let sz = e.serialized_size(cm);
-                    loc.check_at("alpha/serialize_with_mode", r.is_ok() && out == *b && sz == total, || format!("{name}: {}: size {sz}, wrote {}; model {}", show(c), hex(&out), hex(b)));
+                    loc.check_at("alpha/serialize_with_mode", r.is_ok() && out == *b && sz == total, || format!("{name}: {}: size {sz}, wrote {}; model {}", show(c), hexs(&out), hexs(b)));
                 }
             }
         }
@@ -878,7 +887,7 @@ fn check_ser<T: CanonicalSerialize>(loc: &mut Loc, site: &str, what: &dyn Fn() -
     let sz = v.serialized_size(cm);
     let sz2 = if cm == Compress::Yes { v.compressed_size() } else { v.uncompressed_size() };
     loc.check_at(site, r.is_ok() && buf == want && sz == want.len() && sz2 == want.len(), || {
-        format!("{}: serialized_size {sz} (convenience {sz2}), wrote {} bytes {} (ok={}); model {} ({} bytes)", what(), buf.len(), hex(&buf), r.is_ok(), hex(want), want.len())
+        format!("{}: serialized_size {sz} (convenience {sz2}), wrote {} bytes {} (ok={}); model {} ({} bytes)", what(), buf.len(), hexs(&buf), r.is_ok(), hexs(want), want.len())
     });
 }
 
@@ -1337,7 +1346,7 @@ where
                 loc.class_if(fmt == Fmt::Default && m.llen(2) > m.blen(), "flags_spill_to_extra_byte");
                 loc.class(SPARE[m.spare()]);
                 if loc.sampling() {
-                    loc.sample(format!("{} model bytes {}", what(), hex(&want)));
+                    loc.sample(format!("{} model bytes {}", what(), hexs(&want)));
                 }
                 match &*repr {
                     SwRepr::Aff(p) => check_ser(loc, &format!("{name}/affine_serialize"), &what, p, cm, &want),
@@ -1353,14 +1362,14 @@ where
                 let pos_p = rd.pos;
                 if vm == Validate::No || in_sub {
                     loc.check_at(&format!("{name}/affine_deserialize"), matches!(&ga, Ok(p) if sw_same_aff(p, &val)) && pos_a == want.len(), || {
-                        format!("{}: bytes {} read back as {:?}, consumed {pos_a} of {}", what(), hex(&want), ga.as_ref().map_err(|e| e.to_string()), want.len())
+                        format!("{}: bytes {} read back as {:?}, consumed {pos_a} of {}", what(), hexs(&want), ga.as_ref().map_err(|e| e.to_string()), want.len())
                     });
                     loc.check_at(&format!("{name}/projective_deserialize"), matches!(&gp, Ok(p) if sw_same_proj(p, &val)) && pos_p == want.len(), || {
-                        format!("{}: bytes {} read back as {:?}, consumed {pos_p} of {}", what(), hex(&want), gp.as_ref().map_err(|e| e.to_string()), want.len())
+                        format!("{}: bytes {} read back as {:?}, consumed {pos_p} of {}", what(), hexs(&want), gp.as_ref().map_err(|e| e.to_string()), want.len())
                     });
                 } else {
                     loc.check_at(&format!("{name}/deserialize_checked_outside_subgroup"), ga.is_err() && gp.is_err(), || {
-                        format!("{}: encoding {} of a curve point outside the subgroup accepted by a checked mode", what(), hex(&want))
+                        format!("{}: encoding {} of a curve point outside the subgroup accepted by a checked mode", what(), hexs(&want))
                     });
                 }
                 // convenience wrappers agree with the general methods
@@ -1471,7 +1480,7 @@ where
                 loc.class_if(m.llen(1) > m.blen(), "flags_spill_to_extra_byte");
                 loc.class(SPARE[m.spare()]);
                 if loc.sampling() {
-                    loc.sample(format!("{} model bytes {}", what(), hex(&want)));
+                    loc.sample(format!("{} model bytes {}", what(), hexs(&want)));
                 }
                 match &*repr {
                     TeRepr::Aff(p) => check_ser(loc, &format!("{name}/affine_serialize"), &what, p, cm, &want),
@@ -1487,14 +1496,14 @@ where
                 let pos_p = rd.pos;
                 if vm == Validate::No || in_sub {
                     loc.check_at(&format!("{name}/affine_deserialize"), matches!(&ga, Ok(p) if p.x == val.0 && p.y == val.1) && pos_a == want.len(), || {
-                        format!("{}: bytes {} read back as {:?}, consumed {pos_a} of {}", what(), hex(&want), ga.as_ref().map_err(|e| e.to_string()), want.len())
+                        format!("{}: bytes {} read back as {:?}, consumed {pos_a} of {}", what(), hexs(&want), ga.as_ref().map_err(|e| e.to_string()), want.len())
                     });
                     loc.check_at(&format!("{name}/projective_deserialize"), matches!(&gp, Ok(p) if te_same_proj(p, &val)) && pos_p == want.len(), || {
-                        format!("{}: bytes {} read back as {:?}, consumed {pos_p} of {}", what(), hex(&want), gp.as_ref().map_err(|e| e.to_string()), want.len())
+                        format!("{}: bytes {} read back as {:?}, consumed {pos_p} of {}", what(), hexs(&want), gp.as_ref().map_err(|e| e.to_string()), want.len())
                     });
                 } else {
                     loc.check_at(&format!("{name}/deserialize_checked_outside_subgroup"), ga.is_err() && gp.is_err(), || {
-                        format!("{}: encoding {} of a curve point outside the subgroup accepted by a checked mode", what(), hex(&want))
+                        format!("{}: encoding {} of a curve point outside the subgroup accepted by a checked mode", what(), hexs(&want))
                     });
                 }
                 let (mut v1, mut v2) = (Vec::new(), Vec::new());
